@@ -190,6 +190,8 @@ def exec_buffer(case):
         nt = bool(und_s.any() and (~und_s).any() and und_b.any() and (~und_b).any()) or (mode == "RGB" and bool(und_b.any() and (~und_b).any()))
     else:
         nt = bool(und_s.any()) or mode == "RGB" or case["indexer"] != "slices"
+    if exp[by, bx].size == 0:
+        cls.append("empty-rectangle")
     return Outcome(classes=cls, nontrivial=nt)
 
 
@@ -209,6 +211,12 @@ def strat_buffer(draw, tier):
     op = draw(st.sampled_from(["fill", "update", "update"]))
     h = draw(st.integers(1, min(sh, bh)))
     w = draw(st.integers(1, min(sw, bw)))
+    if draw(st.integers(0, 11)) == 0:
+        # an empty rectangle (a tile that misses the image): nothing is addressed
+        if draw(st.booleans()):
+            h = 0
+        else:
+            w = 0
     iy0 = draw(st.integers(0, sh - h))
     ix0 = draw(st.integers(0, sw - w))
     by0 = draw(st.integers(0, bh - h))
@@ -217,7 +225,7 @@ def strat_buffer(draw, tier):
     if op == "fill" and draw(st.integers(0, 3)) == 0:
         indexer = "arrays"
     if indexer == "slices":
-        if draw(st.booleans()):
+        if draw(st.booleans()) or h == 0:
             by = [by0, by0 + h, 1]
         else:
             stop = by0 - 1
@@ -225,7 +233,7 @@ def strat_buffer(draw, tier):
         idx = [[iy0, iy0 + h, 1], [ix0, ix0 + w, 1], by, [bx0, bx0 + w, 1]]
     else:
         # paired index arrays: n distinct buffer pixels, each from some source pixel
-        n = draw(st.integers(1, min(20, bh * bw)))
+        n = draw(st.integers(0 if (h == 0 or w == 0) else 1, min(20, bh * bw)))
         cells = draw(st.lists(st.integers(0, bh * bw - 1), min_size=n, max_size=n, unique=True))
         srcs = draw(st.lists(st.integers(0, sh * sw - 1), min_size=n, max_size=n))
         idx = [[s // sw for s in srcs], [s % sw for s in srcs], [c // bw for c in cells], [c % bw for c in cells]]
@@ -247,6 +255,14 @@ POSITIONS = [(0, 0, 0), (1, 0, 1), (1, 1, 1), (2, 3, 0)]
 
 def tile_array(mode, salt, kind, holes):
     """256x256 tile content. kind: defined | partial | masked"""
+    if kind == "infonly" and mode in ("F32", "F64", "F16x3"):
+        # no finite pixel at all, but infinities are values, not "undefined"
+        a = empty_buffer_array(mode, 256, 256)
+        a[(salt * 5) % 256, (salt * 11) % 256] = np.inf
+        a[(salt * 7) % 256, (salt * 3) % 256] = -np.inf if salt % 2 else np.inf
+        return a
+    if kind == "infonly":
+        kind = "defined"
     if kind == "masked":
         if mode == "RGB":
             kind = "defined"
@@ -428,7 +444,7 @@ def strat_history(draw, tier):
         op = {"op": kind, "pos": draw(st.integers(0, 3))}
         if kind in ("write", "write_buffer", "update"):
             op["salt"] = draw(st.integers(0, 30))
-            op["content"] = draw(st.sampled_from(["defined", "partial", "masked", "masked"]))
+            op["content"] = draw(st.sampled_from(["defined", "partial", "masked", "masked", "infonly"]))
             op["holes"] = draw(hole_lists())
             # scale the holes up to tile size
             op["holes"] = [[h[0] * 7, h[1] * 7, h[2] * 7, h[3] * 7, h[4]] for h in op["holes"]]
@@ -442,7 +458,109 @@ def strat_history(draw, tier):
     return {"format": fmt, "mode": mode, "scheme": draw(st.sampled_from(["L/Y/YX", "LXY"])), "ops": ops, "explicit_format": draw(st.sampled_from([False, False, True]))}
 
 
+# ------------------------------------------------------------------ histories on ONE image object
+
+
+def exec_object_history(case):
+    """one destination Image object lives through a generated sequence of fill / update / save / touch
+    operations; after every step its array, and every file it is saved to, equal the model"""
+    from toasty.image import Image, ImageLoader
+
+    mode = case["mode"]
+    bmode = "RGBA" if mode in ("RGB", "RGBA") else mode
+    size = 32
+    kinds = set()
+    with fresh_dir("c15o-") as d:
+        if case["dest"] == "maskable":
+            buf = mode_of(mode).make_maskable_buffer(size, size)
+            buf.asarray()[...] = empty_buffer_array(mode, size, size)
+            model = empty_buffer_array(mode, size, size)
+        elif case["dest"] == "rgb-array":
+            model = make_array("RGB", size, size, 3, [])
+            buf = Image.from_array(model.copy())
+        else:  # a tile read back from a PNG file (PIL-backed until it is written to)
+            from PIL import Image as PILImage
+
+            model = make_array(bmode if case["dest"] == "png-rgba" else "RGB", size, size, 4, [])
+            pth = os.path.join(d, "start.png")
+            PILImage.fromarray(model).save(pth)
+            buf = ImageLoader().load_path(pth)
+        for si, op in enumerate(case["ops"]):
+            k = op["op"]
+            kinds.add(k)
+            what = f"step {si} ({k}) on a {case['dest']} {mode} image object"
+            if k in ("update", "fill"):
+                src_arr = make_array(mode, size, size, op["salt"], [[h[0] % 33, h[1] % 33, h[2] % 33, h[3] % 33, h[4]] for h in op["holes"]])
+                src = Image.from_array(src_arr.copy())
+                y0, x0, hh, ww = op["rect"]
+                hh = max(1, min(hh, size - y0))
+                ww = max(1, min(ww, size - x0))
+                iy, ix = slice(y0, y0 + hh), slice(x0, x0 + ww)
+                if k == "fill" and model.shape == empty_buffer_array(mode, size, size).shape:
+                    with toasty_call("fill", what):
+                        src.fill_into_maskable_buffer(buf, iy, ix, iy, ix)
+                    model = model_fill(mode, src_arr, (size, size), iy, ix, iy, ix)
+                else:
+                    with toasty_call("update", what):
+                        src.update_into_maskable_buffer(buf, iy, ix, iy, ix)
+                    if model.ndim == 3 and model.shape[2] == 3 and model.dtype == np.uint8:
+                        # an RGB destination without alpha plane: every source pixel is defined
+                        model = model.copy()
+                        model[iy, ix] = src_arr[iy, ix][..., :3]
+                    else:
+                        model = model_update(mode, src_arr, model, iy, ix, iy, ix)
+            elif k == "touch":
+                with toasty_call("touch", what):
+                    buf.asarray()
+                    _ = buf.dtype, buf.shape, buf.mode
+                    if mode in ("RGB", "RGBA"):
+                        buf.aspil()
+            elif k == "save":
+                fmt = op["format"]
+                if fmt == "png" and mode not in ("RGB", "RGBA"):
+                    fmt = "npy"
+                if fmt == "fits" and mode in ("RGB", "RGBA", "F16x3"):
+                    fmt = "npy"
+                pth = os.path.join(d, f"s{si}.{fmt}")
+                with toasty_call("save", what):
+                    buf.save(pth, format=fmt)
+                raw = np.asarray(decode_independently(pth, fmt))
+                if not arrays_equal(raw.astype(model.dtype), model):
+                    ne = ~np.isclose(raw.astype(float), model.astype(float), equal_nan=True)
+                    ne2 = ne.any(axis=2) if ne.ndim == 3 else ne
+                    yy, xx = np.argwhere(ne2)[0]
+                    raise Violation("read-back", f"{what}: the file written to {fmt} has pixel (row {yy}, col {xx}) = {raw[yy, xx].tolist()}, the image holds {model[yy, xx].tolist()}; {int(ne2.sum())} pixels differ (stale copy of the pixels?)")
+            got = np.asarray(buf.asarray())
+            if not arrays_equal(got.astype(model.dtype), model):
+                raise Violation(k if k in ("fill", "update") else "object-state", f"{what}: the image's pixels differ from the model after this step")
+    seq = "+".join(o["op"] for o in case["ops"])
+    nt = "save" in kinds and ("update" in kinds or "fill" in kinds) and seq.count("save") >= 2
+    return Outcome(classes=[mode, case["dest"]] + sorted("op:" + k for k in kinds), nontrivial=nt, count=len(case["ops"]))
+
+
+@st.composite
+def strat_object_history(draw, tier):
+    mode = draw(st.sampled_from(MODES))
+    dests = ["maskable", "maskable"]
+    if mode == "RGB":
+        dests += ["rgb-array", "png-rgb", "png-rgba"]
+    if mode == "RGBA":
+        dests += ["png-rgba"]
+    ops = []
+    for _ in range(draw(st.integers(2, 7))):
+        k = draw(st.sampled_from(["update", "update", "fill", "save", "save", "touch"]))
+        op = {"op": k}
+        if k in ("update", "fill"):
+            op.update(salt=draw(st.integers(0, 30)), holes=draw(hole_lists(2)), rect=[draw(st.integers(0, 31)), draw(st.integers(0, 31)), draw(st.integers(1, 32)), draw(st.integers(1, 32))])
+        if k == "save":
+            op["format"] = draw(st.sampled_from(["png", "npy", "fits"]))
+        ops.append(op)
+    return {"mode": mode, "dest": draw(st.sampled_from(dests)), "ops": ops}
+
+
 PARTS = [
+    Part("image_object_histories", exec_object_history, strategy=strat_object_history, examples={"quick": 1600, "thorough": 100000}, shards={"quick": 16, "thorough": 16},
+         budget_s={"quick": 60, "thorough": 900}, describe="one Image object through generated sequences of fill / update / save / touch; array and saved files vs the model after every step"),
     Part("buffer_semantics", exec_buffer, strategy=strat_buffer, examples={"quick": 6000, "thorough": 400000}, shards={"quick": 16, "thorough": 16},
          budget_s={"quick": 60, "thorough": 900}, describe="fill/update of maskable buffers in all eight modes against a numpy model"),
     Part("tile_histories", exec_history, strategy=strat_history, examples={"quick": 480, "thorough": 30000}, shards={"quick": 16, "thorough": 16},
